@@ -20,9 +20,10 @@ template <typename E>
 static void write_val(W& w, const E& e) {
     w.key("shape").beg_arr(); for (auto d : e.shape_) w.num(d); w.end_arr();
     w.key("elems").beg_arr();
-    if (prod(e.shape_) <= ((size_t)1 << 20))
+    if (safe_total(e.shape_) != SIZE_MAX)
         for (odometer o(e.shape_); !o.done; o.next()) w.num(e.get_(o.idx));
     w.end_arr();
+    if (safe_total(e.shape_) == SIZE_MAX) w.key("huge").boolean(true);
 }
 
 // {"op":"pipe","arrays":[{"shape":[..],"data":[..],"dt":"i32|f64"}],"stages":[{"f":..,"in":[..],"a":{..}}],
@@ -74,7 +75,7 @@ static void run_pipe(const J& A, W& w, bool staged, bool do_eval) {
             // materialise through element reads only (harness code), then continue on the concrete array
             std::visit([&](const auto& e) {
                 using T = typename meta::remove_cvref_t<decltype(e)>::value_type;
-                if (e.shape_.empty()) { vals.push_back(std::make_shared<val_t>(e)); return; }
+                if (e.shape_.empty() || safe_total(e.shape_) == SIZE_MAX) { vals.push_back(std::make_shared<val_t>(e)); return; }
                 auto leaf = materialize<T>(e);
                 keep.push_back(leaf);
                 vals.push_back(std::make_shared<val_t>(erase_leaf(leaf)));
